@@ -18,7 +18,7 @@ import random
 
 import front
 
-LEAN_MODULE = "PydjinniModel.Props.C16"
+LEAN_MODULE = "PydjinniModel.Props.C06All"
 THEOREMS = [
     "Pydjinni.Front.resolveLoop_total",
     "Pydjinni.Front.finishFile_no_crash",
@@ -26,6 +26,8 @@ THEOREMS = [
     "Pydjinni.Front.front_no_crash",
     "Pydjinni.Front.front_outcome_classes",
     "Pydjinni.Front.front_terminates",
+    "Pydjinni.Front.lex_token_bounds",
+    "Pydjinni.Front.lex_none_iff",
 ]
 LEVEL = "proof"
 
